@@ -434,3 +434,30 @@ Definition expected_render_sites : list site17 :=
     Site "String" "index" "m.Extra" "i" "" ["m.Extra != nil"; "i := range m.Extra"];
     Site "TransCtrlSeq" "index" "fmtCode" "str[2]" "" ["func"];
     Site "TransCtrlSeq" "index" "str" "2" "" ["func"] ].
+
+(* every function of chat/message.go, nbtmessage.go, jsonmessage.go and decoration.go, in source order *)
+Definition expected_all_funcs : list string :=
+  [ "Message.Append";
+    "Message.SetColor";
+    "Text";
+    "TranslateMsg";
+    "SetLanguage";
+    "Message.ClearString";
+    "Message.String";
+    "TransCtrlSeq";
+    "Message.ReadFrom";
+    "Message.WriteTo";
+    "Message.TagType";
+    "Message.MarshalNBT";
+    "nbtArgs";
+    "Message.UnmarshalNBT";
+    "TranslateArgs.UnmarshalNBT";
+    "JsonMessage.ReadFrom";
+    "JsonMessage.WriteTo";
+    "Message.MarshalJSON";
+    "Message.UnmarshalJSON";
+    "TranslateArgs.UnmarshalJSON";
+    "Type.Decorate";
+    "Type.ReadFrom";
+    "Type.WriteTo" ].
+
